@@ -547,6 +547,9 @@ func (b *browser) clone() *browser {
 // ---------------------------------------------------------------------------------------
 // request execution with the universal monitors (C19 no panic, C18 cookie attributes)
 
+// noHost as reqSpec.Host: the request carries no Host at all
+const noHost = "<none>"
+
 type reqSpec struct {
 	Method     string
 	Target     string // request target (path?query)
@@ -693,6 +696,9 @@ func (e *testEnv) buildRequest(rs reqSpec) (*http.Request, error) {
 	host := rs.Host
 	if host == "" {
 		host = tHost
+	}
+	if rs.Host == noHost {
+		host = "" // a request without a Host (an HTTP/1.0 client may send none)
 	}
 	var body io.Reader
 	if rs.Body != "" {
